@@ -46,6 +46,18 @@ def dump(dt, names, kind, prefer_order=True):
                 label.append(-99)
         arr = np.asarray(sub["pixel"].values, dtype=float).reshape(-1)
         sig = np.asarray(sub["signal"].values, dtype=float).reshape(-1) if "signal" in sub else np.zeros(1)
+        if kind == "encs":
+            # one column per parameter: column k = code of the value parameter k's model instance received
+            if arr.size != len(names) or np.isnan(arr).any() or np.isnan(sig).any():
+                data, mem = None, -1
+            else:
+                data = []
+                for x in arr:
+                    dec = vp.decode(int(x))
+                    data.append(dec[0] if dec is not None and len(dec) == 1 else -88)
+                mem = int(sig.sum())
+            cells.append(dict(label=label, data=data, mem=mem))
+            continue
         if arr.size == 0 or np.isnan(arr).any() or not np.all(arr == arr[0]):
             data, mem = None, -1
         elif kind == "draw":
@@ -55,6 +67,27 @@ def dump(dt, names, kind, prefer_order=True):
             data, mem = vp.decode(int(arr[0])), int(sig[0]) if not np.isnan(sig).any() else -1
         cells.append(dict(label=label, data=data, mem=mem))
     return shape, cells
+
+
+def keys_of(case):
+    """the parameter keys of a case, in the order the parameters are listed"""
+    if case["kind"] == "encs":
+        return [f"pipeline.charge_collection.m{j}.arguments.{arg}" for j, arg in case["layout"]]
+    return [K + f"p{k}" for k in range(len(case["params"]))]
+
+
+def names_of(case):
+    """the dimension / coordinate name of every parameter: what the implementation's own naming function answers
+    for the key (looked up BY KEY), else the documented rule (last component; '<model>.<argument>' when shared)"""
+    keys = keys_of(case)
+    try:
+        from pyxel.observation.observation import _get_short_dimension_names_new as f
+
+        m = f({k: None for k in keys})
+        return [str(m[k]) for k in keys]
+    except Exception:  # noqa: BLE001
+        short = [k.split(".")[-1] for k in keys]
+        return [s if short.count(s) == 1 else ".".join([k.split(".")[2], s]) for k, s in zip(keys, short)]
 
 
 def build(case, with_dask, out_dir=None):
@@ -67,20 +100,37 @@ def build(case, with_dask, out_dir=None):
         args = dict(p0=0.0, n=case.get("ndraw", 1), sync=bool(case.get("sync")), first=float(case.get("first", 0)),
                     pause=case.get("pause", 0.0))
         func = "verif_probes_c07.draw"
+    elif case["kind"] == "encs":
+        func = None
     else:
         args = dict(nslots=n, sleep_scale=case.get("sleep_scale", 0.0), sleep_mult=case.get("sleep_mult", 1),
                     slow_sum=case.get("slow_sum"))
         for k, d in enumerate(case.get("defaults") or []):
             args[f"p{k}"] = [float(x) for x in d] if isinstance(d, list) else float(d)
         func = "verif_probes_c07.enc"
-    pipe = pyx.make_pipeline({"charge_collection": [dict(func=func, name="m", arguments=args)]})
+    if case["kind"] == "encs":
+        det = pyx.make_detector(rows=1, cols=n)
+        models = []
+        for j in sorted({j for j, _ in case["layout"]}):
+            margs = dict(ident=j, slots=",".join(f"{arg}:{k}" for k, (jj, arg) in enumerate(case["layout"]) if jj == j),
+                         sleep_scale=case.get("sleep_scale", 0.0), sleep_mult=case.get("sleep_mult", 1),
+                         slow_sum=case.get("slow_sum"))
+            for k, (jj, arg) in enumerate(case["layout"]):
+                if jj == j:
+                    d = (case.get("defaults") or [0] * n)[k]
+                    margs[arg] = [float(x) for x in d] if isinstance(d, list) else float(d)
+            models.append(dict(func="verif_probes_c07.encs", name=f"m{j}", arguments=margs))
+        pipe = pyx.make_pipeline({"charge_collection": models})
+    else:
+        pipe = pyx.make_pipeline({"charge_collection": [dict(func=func, name="m", arguments=args)]})
+    keys = keys_of(case)
     params = []
     for k, p in enumerate(case["params"]):
         if case["mode"] == "custom":
             values = "_" if p["w"] is None else ["_"] * p["w"]
         else:
             values = [([float(x) for x in v] if isinstance(v, list) else float(v)) for v in p["values"]]
-        params.append(ParameterValues(key=K + f"p{k}", values=values))
+        params.append(ParameterValues(key=keys[k], values=values))
     kw = {}
     if case["mode"] == "custom":
         fname = os.path.abspath("c07_table.txt")
@@ -108,7 +158,7 @@ def run_one(case, with_dask, sched=None, out_dir=None):
     import verif_probes_c07 as vp
 
     vp.reset()
-    names = [f"p{k}" for k in range(len(case["params"]))]
+    names = names_of(case)
     res = {}
     try:
         det, pipe, obs = build(case, with_dask, out_dir)
@@ -123,14 +173,23 @@ def run_one(case, with_dask, sched=None, out_dir=None):
             shape, cells = dump(dt, names, case["kind"])
         res = dict(shape=shape, cells=cells, leak=int(state_hash() != before))
         if out_dir is not None:
-            res["files"] = read_files(out_dir)
+            res["files"] = read_files(out_dir, case["kind"])
     except Exception as ex:  # noqa: BLE001
         res = dict(raised=type(ex).__name__, msg=str(ex)[:200])
     return res
 
 
-def read_files(out_dir):
+def read_files(out_dir, kind="enc"):
     import verif_probes_c07 as vp
+
+    def dec(a):
+        if kind == "encs":
+            out = []
+            for x in a:
+                d = vp.decode(int(x)) if not np.isnan(x) else None
+                out.append(d[0] if d is not None and len(d) == 1 else -88)
+            return out
+        return vp.decode(int(a[0])) if a.size and np.all(a == a[0]) else None
 
     files = []
     for root, _, fs in os.walk(out_dir):
@@ -140,7 +199,7 @@ def read_files(out_dir):
                 a = np.load(os.path.join(root, f))
                 a = np.asarray(a, dtype=float).reshape(-1)
                 files.append(dict(index=int(m.group(1)) if m else -1, name=f,
-                                  data=vp.decode(int(a[0])) if a.size and np.all(a == a[0]) else None))
+                                  data=dec(a)))
     files.sort(key=lambda d: (d["index"], d["name"]))
     return files
 
